@@ -18,6 +18,8 @@ type fieldWrite struct {
 	rmw    bool   // the stored value depends on the previous value of the same field
 	memo   bool   // guarded by a zero-test of the same field
 	how    string // description
+	gStart token.Pos // memo-guarded region (the branch containing the write)
+	gEnd   token.Pos
 }
 
 // plannerMethods: methods named Process of module types under reader/ plus the same-receiver methods they call (transitively).
@@ -186,8 +188,8 @@ func (c *Ctx) plannerFieldWrites() []fieldWrite {
 			for i, lh := range as.Lhs {
 				se, ok := ast.Unparen(lh).(*ast.SelectorExpr)
 				if !ok {
-					// *recv.f = … / recv.f[i] = …
-					if st, ok := ast.Unparen(lh).(*ast.StarExpr); ok {
+					// *recv.f = …
+					if st, isStar := ast.Unparen(lh).(*ast.StarExpr); isStar {
 						se, ok = ast.Unparen(st.X).(*ast.SelectorExpr)
 					}
 					if !ok {
@@ -210,22 +212,43 @@ func (c *Ctx) plannerFieldWrites() []fieldWrite {
 				} else if rhs != nil && c.readsField(fi, rhs, recv, se.Sel.Name, closure, 0) {
 					w.rmw = true
 				}
-				// memo guard: an enclosing if whose condition tests recv.field against nil/zero
+				// memo guard: the write lies in the branch of an enclosing `if` on which recv.field (or *recv.field) is known to be nil/zero
+				isField := func(e ast.Expr) bool {
+					e = ast.Unparen(e)
+					if st, ok := e.(*ast.StarExpr); ok {
+						e = ast.Unparen(st.X)
+					}
+					fs, ok := e.(*ast.SelectorExpr)
+					if !ok || fs.Sel.Name != se.Sel.Name {
+						return false
+					}
+					fid, ok := ast.Unparen(fs.X).(*ast.Ident)
+					return ok && info.Uses[fid] == recv
+				}
+				isNilOrZero := func(e ast.Expr) bool {
+					tv, ok := info.Types[e]
+					return ok && (tv.IsNil() || (tv.Value != nil && (tv.Value.ExactString() == "0" || tv.Value.ExactString() == `""`)))
+				}
 				for _, anc := range stack {
-					if is, ok := anc.(*ast.IfStmt); ok && is.Body.Pos() <= as.Pos() && as.End() <= is.Body.End() {
+					is, ok := anc.(*ast.IfStmt)
+					if !ok {
+						continue
+					}
+					inThen := is.Body.Pos() <= as.Pos() && as.End() <= is.Body.End()
+					inElse := is.Else != nil && is.Else.Pos() <= as.Pos() && as.End() <= is.Else.End()
+					if inThen {
 						for _, a := range atomsTrueOn(is.Cond) {
-							if be, ok := ast.Unparen(a).(*ast.BinaryExpr); ok && be.Op == token.EQL {
-								if fs, ok := ast.Unparen(be.X).(*ast.SelectorExpr); ok && fs.Sel.Name == se.Sel.Name {
-									if fid, ok := ast.Unparen(fs.X).(*ast.Ident); ok && info.Uses[fid] == recv {
-										w.memo = true
-									}
-								}
-								// *recv.f == nil
-								if st, ok := ast.Unparen(be.X).(*ast.StarExpr); ok {
-									if fs, ok := ast.Unparen(st.X).(*ast.SelectorExpr); ok && fs.Sel.Name == se.Sel.Name {
-										w.memo = true
-									}
-								}
+							if be, ok := ast.Unparen(a).(*ast.BinaryExpr); ok && be.Op == token.EQL && isField(be.X) && isNilOrZero(be.Y) {
+								w.memo, w.gStart, w.gEnd = true, is.Body.Pos(), is.Body.End()
+							}
+						}
+					}
+					if inElse {
+						for _, a := range atomsTrueOn(is.Cond) {
+							if be, ok := ast.Unparen(a).(*ast.BinaryExpr); ok && be.Op == token.NEQ && isField(be.X) && isNilOrZero(be.Y) {
+								// cond = … && f != nil: the else branch is taken when some conjunct is false; accept when f != nil is the conjunct
+								// that distinguishes "already cached" (the usual `cache != nil && *cache != nil` shape)
+								w.memo, w.gStart, w.gEnd = true, is.Else.Pos(), is.Else.End()
 							}
 						}
 					}
@@ -249,7 +272,27 @@ func (c *Ctx) plannerFieldWrites() []fieldWrite {
 }
 
 // frozen, reasoned exceptions: (function, field) → reason
-var h1Exceptions = map[string]string{}
+var h1Exceptions = map[string]string{
+	"reader/logql/logql_transpiler_v2/clickhouse_planner.(*ByWithoutPlanner).processTSTable writes field LabelsCache": "intra-execution hand-over to later stages: the cache is *read* only when an upstream stage of the same execution supplied it (LabelsJoinPlanner overwrites it unconditionally on every execution); when this stage built the labels itself the read is disabled by the ownLabels flag and they are rebuilt from scratch. Valid only while the cache read is guarded by ownLabels (checked)",
+}
+
+// h1ExceptionHolds: the structural side condition of an exception still holds on the current tree.
+func (c *Ctx) h1ExceptionHolds(key string, w fieldWrite) bool {
+	if strings.Contains(key, "processTSTable writes field LabelsCache") {
+		ok := false
+		ast.Inspect(w.fi.Decl.Body, func(n ast.Node) bool {
+			if is, isIf := n.(*ast.IfStmt); isIf {
+				t := c.normText(is.Cond)
+				if strings.Contains(t, "LabelsCache") && strings.Contains(t, "!b.ownLabels") {
+					ok = true
+				}
+			}
+			return true
+		})
+		return ok
+	}
+	return true
+}
 
 var ruleH1 = &Rule{
 	ID:    "H1",
@@ -271,7 +314,7 @@ var ruleH1 = &Rule{
 				obls = append(obls, Obl{Key: key, Pos: c.pos(w.stmt.Pos()), Status: OK, Msg: "overwritten from plan-constant inputs on every execution"})
 			case w.memo:
 				obls = append(obls, Obl{Key: key, Pos: c.pos(w.stmt.Pos()), Status: OK, Msg: "memo idiom (written only while the memo field is still empty)"})
-			case h1Exceptions[k] != "":
+			case h1Exceptions[k] != "" && c.h1ExceptionHolds(k, w):
 				obls = append(obls, Obl{Key: key, Pos: c.pos(w.stmt.Pos()), Status: Exception, Msg: h1Exceptions[k]})
 			default:
 				obls = append(obls, Obl{Key: key, Pos: c.pos(w.stmt.Pos()), Status: Violation,
